@@ -210,84 +210,101 @@ decreasing_by
 
 def strOfRev (l : List Char) : String := String.ofList l.reverse
 
+/-- the `'.'` arm: a directive, or a lone dot -/
+def lexDirective (src : Array Char) (c : Cursor) : LexItem × Cursor :=
+  let start := c.getPos
+  let r := accWhile isSymbolChar src c []
+  let stop := r.2.getPos
+  let s := strOfRev r.1
+  let t : Token := ⟨.directive, s, s, ⟨start, stop⟩⟩
+  if s == "." then (.unexpected t, r.2.adv src) else (.tok t, r.2.adv src)
+
+/-- the `'#'` arm -/
+def lexComment (src : Array Char) (c : Cursor) : LexItem × Cursor :=
+  let start := c.getPos
+  let r := accComment src c []
+  let stop := r.2.getPos
+  let s := String.ofList (r.1.reverse.drop 1)
+  (.tok ⟨.comment, s, s, ⟨start, stop⟩⟩, r.2.adv src)
+
+/-- the `'"'` arm -/
+def lexStringLit (src : Array Char) (c : Cursor) : LexItem × Cursor :=
+  let start := c.getPos
+  let c1 := c.adv src
+  match accString src (src.size - c1.pos + 1) c1 [] with
+  | .ok (acc, c2) =>
+    let s := strOfRev acc
+    (.tok ⟨.string, s, "\"" ++ s ++ "\"", ⟨start, c2.getPos⟩⟩, c2.adv src)
+  | .error (k, c2) =>
+    let c3 := if k == .esc then skipInvalidLiteral '"' src c2 else c2
+    (.strErr ⟨.string, "", "", ⟨start, c2.getPos⟩⟩ k c2.getPos, c3)
+
+/-- the `'\''` arm -/
+def lexCharLit (src : Array Char) (c : Cursor) : LexItem × Cursor :=
+  let start := c.getPos
+  let c1 := c.adv src
+  match cur src c1 with
+  | none => (.strErr ⟨.string, "", "", ⟨start, c1.getPos⟩⟩ .unclosed c1.getPos, c1)
+  | some ch =>
+    if ch == '\\' then
+      match escapeCode src c1 with
+      | some (v, c2) =>
+        let c3 := c2.adv src
+        match cur src c3 with
+        | some '\'' =>
+          (.tok ⟨.char, String.singleton v, "'" ++ String.singleton v ++ "'", ⟨start, c3.getPos⟩⟩,
+            c3.adv src)
+        | some _ =>
+          (.strErr ⟨.string, String.singleton v, String.singleton v, ⟨start, c3.getPos⟩⟩
+            .unclosed c3.getPos, c3)
+        | none => (.strErr ⟨.string, "", "", ⟨start, c3.getPos⟩⟩ .unclosed c3.getPos, c3)
+      | none =>
+        -- invalid escape: skip the rest of the literal
+        (.strErr ⟨.string, String.singleton ch, String.singleton ch, ⟨start, c1.getPos⟩⟩
+          .esc c1.getPos, skipInvalidLiteral '\'' src c1)
+    else if ch == '\n' then
+      (.strErr ⟨.string, String.singleton ch, String.singleton ch, ⟨start, c1.getPos⟩⟩
+        .newline c1.getPos, c1)
+    else
+      let c3 := c1.adv src
+      match cur src c3 with
+      | some '\'' =>
+        (.tok ⟨.char, String.singleton ch, "'" ++ String.singleton ch ++ "'", ⟨start, c3.getPos⟩⟩,
+          c3.adv src)
+      | some _ =>
+        (.strErr ⟨.string, String.singleton ch, String.singleton ch, ⟨start, c3.getPos⟩⟩
+          .unclosed c3.getPos, c3)
+      | none => (.strErr ⟨.string, "", "", ⟨start, c3.getPos⟩⟩ .unclosed c3.getPos, c3)
+
+/-- the default arm: an unexpected character, a label or a symbol -/
+def lexSymbol (src : Array Char) (c : Cursor) (ch : Char) : LexItem × Cursor :=
+  if !isSymbolItem ch then
+    (.unexpected ⟨.symbol, String.singleton ch, String.singleton ch, c.getRange⟩, c.adv src)
+  else
+    let start := c.getPos
+    let r := accWhile isSymbolItem src c []
+    let s := strOfRev r.1
+    if peek src r.2 1 == some ':' then
+      let c2 := r.2.adv src
+      (.tok ⟨.label, s, s ++ ":", ⟨start, c2.getPos⟩⟩, c2.adv src)
+    else
+      (.tok ⟨.symbol, s, s, ⟨start, r.2.getPos⟩⟩, r.2.adv src)
+
 /-- One call of `Iterator::next` for `Lexer`: `none` at the end of input, otherwise the item
     and the cursor afterwards. -/
 def lexNext (src : Array Char) (c0 : Cursor) : Option (LexItem × Cursor) :=
   let c := skipWs src c0
   match cur src c with
   | none => none
-  | some '\n' => some (.tok ⟨.newline, "", "\n", c.getRange⟩, c.adv src)
-  | some '(' => some (.tok ⟨.lparen, "", "(", c.getRange⟩, c.adv src)
-  | some ')' => some (.tok ⟨.rparen, "", ")", c.getRange⟩, c.adv src)
-  | some '.' =>
-    let start := c.getPos
-    let (acc, c1) := accWhile isSymbolChar src c []
-    let stop := c1.getPos
-    let s := strOfRev acc
-    let t : Token := ⟨.directive, s, s, ⟨start, stop⟩⟩
-    if s == "." then some (.unexpected t, c1.adv src) else some (.tok t, c1.adv src)
-  | some '#' =>
-    let start := c.getPos
-    let (acc, c1) := accComment src c []
-    let stop := c1.getPos
-    let s := String.ofList (acc.reverse.drop 1)
-    some (.tok ⟨.comment, s, s, ⟨start, stop⟩⟩, c1.adv src)
-  | some '"' =>
-    let start := c.getPos
-    let c1 := c.adv src
-    match accString src (src.size - c1.pos + 1) c1 [] with
-    | .ok (acc, c2) =>
-      let s := strOfRev acc
-      some (.tok ⟨.string, s, "\"" ++ s ++ "\"", ⟨start, c2.getPos⟩⟩, c2.adv src)
-    | .error (k, c2) =>
-      let c3 := if k == .esc then skipInvalidLiteral '"' src c2 else c2
-      some (.strErr ⟨.string, "", "", ⟨start, c2.getPos⟩⟩ k c2.getPos, c3)
-  | some '\'' =>
-    let start := c.getPos
-    let c1 := c.adv src
-    match cur src c1 with
-    | none => some (.strErr ⟨.string, "", "", ⟨start, c1.getPos⟩⟩ .unclosed c1.getPos, c1)
-    | some ch =>
-      -- the character inside the quotes
-      let inner : Except LexItem (Char × Cursor) :=
-        if ch == '\\' then
-          match escapeCode src c1 with
-          | some (e, c') => .ok (e, c')
-          | none =>
-            .error (.strErr ⟨.string, String.singleton ch, String.singleton ch, ⟨start, c1.getPos⟩⟩
-                      .esc c1.getPos)
-        else if ch == '\n' then
-          .error (.strErr ⟨.string, String.singleton ch, String.singleton ch, ⟨start, c1.getPos⟩⟩
-                    .newline c1.getPos)
-        else .ok (ch, c1)
-      match inner with
-      | .error it =>
-        -- invalid escape: skip the rest of the literal; newline: stay on the newline
-        let c2 := if ch == '\\' then skipInvalidLiteral '\'' src c1 else c1
-        some (it, c2)
-      | .ok (v, c2) =>
-        let c3 := c2.adv src
-        match cur src c3 with
-        | some '\'' =>
-          some (.tok ⟨.char, String.singleton v, "'" ++ String.singleton v ++ "'",
-                      ⟨start, c3.getPos⟩⟩, c3.adv src)
-        | some _ =>
-          some (.strErr ⟨.string, String.singleton v, String.singleton v, ⟨start, c3.getPos⟩⟩
-                  .unclosed c3.getPos, c3)
-        | none =>
-          some (.strErr ⟨.string, "", "", ⟨start, c3.getPos⟩⟩ .unclosed c3.getPos, c3)
   | some ch =>
-    if !isSymbolItem ch then
-      some (.unexpected ⟨.symbol, String.singleton ch, String.singleton ch, c.getRange⟩, c.adv src)
-    else
-      let start := c.getPos
-      let (acc, c1) := accWhile isSymbolItem src c []
-      let s := strOfRev acc
-      if peek src c1 1 == some ':' then
-        let c2 := c1.adv src
-        some (.tok ⟨.label, s, s ++ ":", ⟨start, c2.getPos⟩⟩, c2.adv src)
-      else
-        some (.tok ⟨.symbol, s, s, ⟨start, c1.getPos⟩⟩, c1.adv src)
+    if ch == '\n' then some (.tok ⟨.newline, "", "\n", c.getRange⟩, c.adv src)
+    else if ch == '(' then some (.tok ⟨.lparen, "", "(", c.getRange⟩, c.adv src)
+    else if ch == ')' then some (.tok ⟨.rparen, "", ")", c.getRange⟩, c.adv src)
+    else if ch == '.' then some (lexDirective src c)
+    else if ch == '#' then some (lexComment src c)
+    else if ch == '"' then some (lexStringLit src c)
+    else if ch == '\'' then some (lexCharLit src c)
+    else some (lexSymbol src c ch)
 
 /-- Collect everything the iterator yields. The recursion is well-founded on the characters
     left, guarded by a progress test; `Proofs/C06.lexNext_progress` shows the guard never
